@@ -307,7 +307,7 @@ def c11(r):
         active_before = True if bf is None else bf['flags'][1]
         for o in c['sent']:
             _, w, x, t, rid, fc = o
-            if ev[0] != 'tick':
+            if ev[0] not in ('tick', 'tickf'):
                 out.append(('task-outside-dispatch', {}, 'task sent by event %s' % ev[0], c['i']))
             if not active_before:
                 out.append(('task-while-inactive', {}, 'task message sent while the pipeline is not active', c['i']))
@@ -333,6 +333,10 @@ def c11(r):
                 if want is None and (rid <= c['stored'] or rid not in nexts):
                     out.append(('fields', {'field': 'runid'}, 'fresh run id %s not drawn / not larger than stored %s' % (rid, c['stored']), c['i']))
             need_fresh = {x for (x, t, rid) in c['released'] if bf['nodes'][x][4] is None}
+            # jobs the farm kept because the database refused a run id at an
+            # earlier dispatch (they are not `released` again, they still need one)
+            need_fresh |= {x for x in bf['jobs'] if bf['nodes'][x][4] is None and bf['nodes'][x][2]} \
+                | {x for x in bf['jobs'] if bf['nodes'][x][4] is None and W.fac[x] == 1}
             if bool(nexts) != bool(need_fresh) or len(nexts) != len(need_fresh):
                 out.append(('fields', {'field': 'runid'}, 'db.next() consulted %d times for %d jobs without run id' % (len(nexts), len(need_fresh)), c['i']))
             if not active_before and (ob['outs'] or ob != dict(bf, outs=ob['outs'])):
